@@ -15,6 +15,7 @@ def handle (line : String) : String :=
   | "DIFF" :: rest => Diff.diffLine rest
   | "DIFFX" :: rest => Diff.diffxLine rest
   | "DIFFO" :: rest => DiffO.diffoLine rest
+  | "IODIFF" :: rest => DiffIO.iodiffLine rest
   | "DELTA" :: rest => Delta.deltaLine rest
   | "SEARCH" :: rest => Search.searchLine rest
   | "SAVEFS" :: rest => SaveFS.saveLine Wire.decStr Wire.encStr rest
